@@ -118,6 +118,26 @@ func (c *Ctx) c19ParseApply(fn *types.Func) *c19Apply {
 		return ""
 	}
 	fmtArgs := map[ast.Expr]bool{}
+	// locals of the function that hold the value of a rule getter (v := rc.GetK()), by object
+	getterLocals := map[types.Object]string{}
+	ast.Inspect(decl.Body, func(n ast.Node) bool {
+		if as, ok := n.(*ast.AssignStmt); ok && len(as.Lhs) == len(as.Rhs) {
+			for i, l := range as.Lhs {
+				id, ok := l.(*ast.Ident)
+				if !ok {
+					continue
+				}
+				if call, ok := ast.Unparen(as.Rhs[i]).(*ast.CallExpr); ok {
+					if sel, ok := call.Fun.(*ast.SelectorExpr); ok && types.ExprString(sel.X) == a.rcName && strings.HasPrefix(sel.Sel.Name, "Get") && a.rcName != "" {
+						if o := info.ObjectOf(id); o != nil {
+							getterLocals[o] = strings.TrimPrefix(sel.Sel.Name, "Get")
+						}
+					}
+				}
+			}
+		}
+		return true
+	})
 	condIsPresence := func(e ast.Expr) bool {
 		pres := false
 		ast.Inspect(e, func(n ast.Node) bool {
@@ -153,6 +173,10 @@ func (c *Ctx) c19ParseApply(fn *types.Func) *c19Apply {
 								}
 							}
 						}
+					}
+				case *ast.Ident:
+					if g, ok := getterLocals[info.Uses[x]]; ok {
+						ru.getters = append(ru.getters, g)
 					}
 				case *ast.CallExpr:
 					if sel, ok := x.Fun.(*ast.SelectorExpr); ok && types.ExprString(sel.X) == a.rcName && strings.HasPrefix(sel.Sel.Name, "Get") {
